@@ -269,7 +269,23 @@ def rule_concatenate(ctx):
     ev = run(ctx, ca)
     okc = any(exc_name(p.value) == 'ValueError' and any('name' in T.show(a) for a, _ in p.guards) for p in raise_paths(ev))
     okv = any(p.value[0] == 'call' and T.call_name(p.value) == 'Axis' and T.dotted(p.value[2][0][1]) == 'np.concatenate' for p in ret_paths(ev))
-    if okc and okv:
+    # the labels are what np.concatenate makes of them (NumPy's common type): no dtype forced onto the joined labels, all inputs in order
+    for p in ret_paths(ev):
+        v = p.value
+        if v[0] == 'call' and T.call_name(v) == 'Axis':
+            forced = T.kw(v, 'dtype') or (v[2][2] if len(v[2]) > 2 else None)
+            if forced is not None and forced != T.CONST_NONE:
+                ctx.violated('R3', ca, 'dtype forced onto the concatenated labels', 'the joined labels are cast with dtype=%s: labels of a later input that this type cannot hold (2001.5 among int '
+                             'labels) are truncated, so the axis no longer carries the inputs\' labels' % T.show(forced)[:60], node=p.node)
+                okv = None
+            cc = v[2][0]
+            lst = cc[2][0] if cc[0] == 'call' and cc[2] else None
+            if lst is not None and not (lst[0] == 'comp' and lst[3][0][1] == P_('axes') and not lst[3][0][2] and lst[2] == ('attr', ('elem', P_('axes'), lst[3][0][0]), 'values')):
+                ctx.violated('R3', ca, 'labels = ' + T.show(cc)[:100], 'the labels must be np.concatenate([ax.values for ax in axes]): every input, in order, unfiltered', node=p.node)
+                okv = None
+    if okv is None:
+        pass
+    elif okc and okv:
         ctx.holds('R3', '_concatenate_axes: one common name, labels concatenated in order')
     else:
         ctx.violated('R3', ca, '_concatenate_axes', 'the concatenated axes must share one name (ValueError otherwise) and their labels are concatenated in order')
@@ -381,6 +397,11 @@ def check(ctx):
     from . import c06
     c06.rule_align(ctx, rid='R7')
     c06.rule_merge_cast(ctx, r8='R8', r9='R9')
+    from ..report import Renamed
+    ctx.rule('R11', 'align=True: ownership of the sorted axis (C06) and the reindex pipeline (C07)', 3)
+    c06.rule_sort_ownership(Renamed(ctx, {'*': 'R11'}))
+    from . import c07
+    c07.rule_pipeline(ctx, rid='R11')
     ctx.not_decided += ['slice-by-slice equality with the inputs', 'behaviour when the inputs have different *sets* of dimensions (NumPy raises)']
     ctx.trusted += ['np.array(list of arrays) stacks along a new first axis', 'np.concatenate semantics']
     return EXPLANATION
